@@ -24,6 +24,7 @@ import core
 THEOREMS = ["C13_plumb", "C13_rules", "C13_run_is_pipeline", "C13_parse_defaults", "C13_parse_keys",
             "C13_parse_raises", "C13_yaml_dict"]
 TRUSTED = [
+    "harness/py2coq_interface.py (fail-closed `ast` transliteration of run_bldfm_single, the _parse_* functions, parse_config_dict, load_config, the dataclass fields/defaults, BLDFMConfig.__post_init__ and TowerConfig.compute_local_xy into the description types of Model/InterfaceDesc.v; positional arguments are resolved in Coq through the callees' signatures read from utils.py / pbl_model.py / solver.py) and the semantics given to those descriptions in Model/InterfaceDesc.v (run_desc, place_desc: Python's None / `is None` / truthiness, dict access, field name -> model projection); Bridge/InterfaceBridge.v and Bridge/ConfigParserBridge.v prove per run that they equal plumb_c / place / the parser tables for ALL arguments, Proofs/InterfaceBridgeLemmas.v relates the tables to Interface.parse_*",
     "Model/Interface.v is hand-written; tied to interface.run_bldfm_single by recording the arguments the four pipeline functions actually receive (exact: bit patterns, array digests, object hand-over) and to config_parser.parse_config_dict by differential execution",
     "C13_run_is_pipeline and C13_yaml_dict hold by construction of the model; their content on the real code is the bit-equality of result arrays with the by-hand pipeline and the YAML-file-vs-dictionary dataclass equality measured by the correspondence",
     "PyYAML (yaml.safe_load / safe_dump), CPython dataclass equality, inspect.signature binding used by the recorders",
@@ -34,6 +35,7 @@ ASSUMPTIONS = [
     "valid configurations: values have the documented shapes (scalars, lists, booleans, integer nz and output_levels); dictionaries have unique keys",
     "the YAML library returns for a file the dictionary it denotes (Section variable yaml_load in C13_yaml_dict)",
     "tower local coordinates are taken as computed by the configuration object (their formula is C17)",
+    "tie (B) reads the source text only: the four pipeline functions are the module-level, undecorated definitions that interface.py imports by name (checked), nothing rebinds them or the configuration classes at run time (monkey-patching is outside the static tie; the recorded-call correspondence would see it), MetConfig.get_step is as modelled in Model/Met.v (C16), and a dataclass __init__ stores each keyword in the field of that name",
 ]
 
 FLUXTOK = 900001
@@ -1064,6 +1066,9 @@ def eval_terms(ctx, prefix, terms, batch=25, extra_header=""):
 
 def check(ctx):
     core.check_properties_file(ctx, "Properties/C13.v", THEOREMS, core.AX_NONE)
+    # tie (B): descriptions of run_bldfm_single / the parser re-extracted from core.SRC, bridge lemmas for ALL arguments
+    import py2coq_interface
+    py2coq_interface.bridge(ctx)
     n_random = 2500 if ctx.thorough else 330
     cases, pairs_seen, pairs_all = gen_cases(ctx.rng, n_random, full_product=ctx.thorough)
     for j, c in enumerate(cases):
